@@ -168,7 +168,10 @@ func (r *rw) prepass(f *ast.File) {
 			if p == "sync" && !syncOK[x.Sel.Name] {
 				r.errf(x.Pos(), "sync.%s is not modelled by simrt", x.Sel.Name)
 			}
-			if p == "sync/atomic" || p == "unsafe" || p == "reflect" && x.Sel.Name == "Select" {
+			if p == "sync/atomic" && !atomicOK[x.Sel.Name] {
+				r.errf(x.Pos(), "sync/atomic.%s is not modelled by simrt", x.Sel.Name)
+			}
+			if p == "unsafe" || p == "reflect" && x.Sel.Name == "Select" {
 				r.errf(x.Pos(), "%s.%s is not modelled by simrt", p, x.Sel.Name)
 			}
 			if p == "time" && timeBad[x.Sel.Name] {
@@ -201,6 +204,9 @@ func (r *rw) post(c *astutil.Cursor) bool {
 		case p == "sync" && syncOK[n.Sel.Name]:
 			r.stats["sync"]++
 			c.Replace(r.simrt(n.Sel.Name))
+		case p == "sync/atomic" && atomicOK[n.Sel.Name]:
+			r.stats["atomic"]++
+			c.Replace(r.simrt("Atomic" + n.Sel.Name))
 		case p == "time" && (n.Sel.Name == "Sleep" || n.Sel.Name == "After" || n.Sel.Name == "Now"):
 			r.stats["time"]++
 			c.Replace(r.simrt(n.Sel.Name))
@@ -270,6 +276,17 @@ func (r *rw) post(c *astutil.Cursor) bool {
 
 // ioSeams: the os seams are applied to non-test files only (tests keep real files).
 func (r *rw) ioSeams() bool { return !r.isTest }
+
+var atomicOK = func() map[string]bool {
+	m := map[string]bool{"Bool": true}
+	for _, t := range []string{"Int32", "Int64", "Uint32", "Uint64"} {
+		m[t] = true
+		for _, op := range []string{"Add", "Load", "Store", "Swap", "CompareAndSwap"} {
+			m[op+t] = true
+		}
+	}
+	return m
+}()
 
 var syncOK = map[string]bool{"WaitGroup": true, "Mutex": true, "RWMutex": true, "Once": true}
 var timeBad = map[string]bool{"NewTimer": true, "Tick": true, "AfterFunc": true, "NewTicker": true, "Since": true, "Until": true, "Timer": true, "Ticker": true}
@@ -545,7 +562,7 @@ func main() {
 			f.Comments = nil
 			f.Doc = nil
 			astutil.AddImport(p.Fset, f, simrtPath)
-			for _, ip := range []string{"sync", "runtime", "os", "time"} {
+			for _, ip := range []string{"sync", "sync/atomic", "runtime", "os", "time"} {
 				if !astutil.UsesImport(f, ip) {
 					astutil.DeleteImport(p.Fset, f, ip)
 				}
